@@ -100,7 +100,7 @@ CHECKS = {
          "DESIGN.md §5 C14, §4 E6"),
  "C18": ("mc-env", "exploration",
          "exhaustive enumeration of file-system layouts x keys x overrides x resolver builds on the real FileSystemPackageResolver against a decision table written from README.md",
-         "Full product: package key (quick: ns:name, ns:name:sub, ns:name@1.2.3; thorough: names of 1-3 segments x {unversioned, 1.2.3, 1.2.3-rc.1, 0.1.0+b.7}) x P, P.wasm, P.wat each in {absent, file, directory} x override in {none, .wasm, .wat, .wit, dangling, directory, other-name} x error_on_unknown x resolver build {wit; wit,wat}, plus all ordered pairs of distinct keys over 6 representative layouts in one resolve call (~3k layouts quick). Every file holds a distinct component and every directory a distinct WIT package, so the loaded source is identified from the returned bytes; each layout is materialised in its own directory under the harness target dir and FileSystemPackageResolver::resolve is compared with the decision table of DESIGN.md A.5 (which candidate is loaded, the loaded bytes, UnknownPackage vs PackageResolutionFailure vs skipped).",
+         "Full product: package key (quick: ns:name, ns:name:sub, ns:name@1.2.3; thorough: names of 1-3 segments x {unversioned, 1.2.3, 1.2.3-rc.1, 0.1.0+b.7}) x P, P.wasm, P.wat each in {absent, file, directory} x override in {none, .wasm, .wat, .wit, dangling, directory, other-name} x error_on_unknown x resolver build {wit; wit,wat}, plus all ordered pairs of distinct keys over 6 representative layouts in one resolve call, plus every ordered list of 1-3 keys over three WIT directories one of which depends on (and optionally vendors a differing copy of) another, where each key must resolve to exactly what its directory alone encodes to (~3k layouts quick). Every file holds a distinct component and every directory a distinct WIT package, so the loaded source is identified from the returned bytes; each layout is materialised in its own directory under the harness target dir and FileSystemPackageResolver::resolve is compared with the decision table of DESIGN.md A.5 (which candidate is loaded, the loaded bytes, UnknownPackage vs PackageResolutionFailure vs skipped).",
          "Reference bytes come from the same wat / wit-component crates wac links. Override pointing at a directory and a .wat override without text support are run for panics only (sources silent). Real file system (tmp dir under the target dir), no fault injection on I/O errors.",
          "DESIGN.md §5 C18, A.5"),
  "C19": ("mc-env", "exploration",
